@@ -7,6 +7,9 @@
 //	menu                      -> {"families":[{"name","pooled","kinds":[{"name","exempt","api"}]}]}
 //	exec  -out DIR [-fam F]   stdin: ndjson {"h":[1-based kind indexes]} or {"f":family,"h":[kind names]}
 //	                          stdout: trace ndjson, DIR/vals.json, DIR/fresh.json
+//	proc  -fam F              stdin: ONE history {"f","h":[kind names]}; this process makes exactly these calls, each on a NEW
+//	                          instance (emptied pools), before anything else has run in the process - no reference sweep.
+//	                          stdout: {"ev":[{"k","r": logged result VALUE}]}  (judged against the references of another process)
 //	shrink                    stdin: ndjson {"f","h":[names],"j":failing call (1-based),"p":producer or 0}
 //	                          stdout: ndjson {"f","h":[names],"j","p"} (a shortest sub-history that still differs)
 package main
@@ -55,8 +58,12 @@ type Family struct {
 	// with emptied pools AND a new instance, under GOMAXPROCS(1).
 	FreshPools bool
 	Pooled     bool
-	New        func() any
-	Kinds      []Kind
+	// Named: the family only takes histories that name it ({"f": name, "h": [kind names]}); the histories are enumerated
+	// by its own TLA+ module (ReuseToggle, ReuseRetain), not by the index histories over the generic menus.
+	Named bool
+	New   func() any
+	Kinds []Kind
+	index map[string]*Kind
 }
 
 var none = map[string]any{"t": "none"}
@@ -134,12 +141,13 @@ func findFamily(name string) *Family {
 }
 
 func (f *Family) kind(name string) *Kind {
-	for i := range f.Kinds {
-		if f.Kinds[i].Name == name {
-			return &f.Kinds[i]
+	if f.index == nil {
+		f.index = make(map[string]*Kind, len(f.Kinds))
+		for i := range f.Kinds {
+			f.index[f.Kinds[i].Name] = &f.Kinds[i]
 		}
 	}
-	return nil
+	return f.index[name]
 }
 
 // freshPools empties every sync.Pool of the process (two collections: primary -> victim -> gone).
@@ -349,6 +357,9 @@ func cmdExec(args []string) {
 			if (hl.F != "" && hl.F != f.Name) || (*only != "" && *only != f.Name) {
 				continue
 			}
+			if hl.F == "" && f.Named {
+				continue
+			}
 			if hl.F == "" && f.Pooled && *pooledMax > 0 && len(hl.H) > *pooledMax {
 				continue
 			}
@@ -490,6 +501,54 @@ func cmdShrink() {
 	}
 }
 
+// cmdProc: the calls of one history are the FIRST calls of this process, each on a new instance.  What a package keeps
+// per process (type caches, lazily built tables) is then in the state the history leaves it in, not in the state the
+// reference sweep of the exec command leaves it in.  Results are printed as values; props/C07.py only looks them up in the
+// value table of the reference process, TLC compares.
+func cmdProc(args []string) {
+	fs := flag.NewFlagSet("proc", flag.ExitOnError)
+	fam := fs.String("fam", "", "family")
+	_ = fs.Parse(args)
+	runtime.GOMAXPROCS(1)
+	f := findFamily(*fam)
+	sc := bufio.NewScanner(os.Stdin)
+	sc.Buffer(make([]byte, 1<<20), 1<<26)
+	var hl histLine
+	if f == nil || !sc.Scan() || json.Unmarshal(sc.Bytes(), &hl) != nil {
+		fmt.Fprintln(os.Stderr, "proc: need -fam and one history line")
+		os.Exit(2)
+	}
+	names, ok := namesOf(f, hl.H)
+	if !ok {
+		fmt.Fprintln(os.Stderr, "proc: bad history")
+		os.Exit(2)
+	}
+	type pev struct {
+		K string `json:"k"`
+		R any    `json:"r"`
+	}
+	evs := []pev{}
+	for _, n := range names {
+		k := f.kind(n)
+		if k == nil {
+			fmt.Fprintf(os.Stderr, "unknown kind %s in family %s\n", n, f.Name)
+			os.Exit(2)
+		}
+		var inst any
+		freshPools()
+		if !f.Pooled {
+			inst = f.New()
+		}
+		o := runCall(k, inst)
+		evs = append(evs, pev{K: n, R: kindEnc(o.Res)})
+	}
+	b, err := json.Marshal(map[string]any{"f": f.Name, "ev": evs})
+	if err != nil {
+		panic(err)
+	}
+	fmt.Println(string(b))
+}
+
 func cmdMenu() {
 	type kd struct {
 		Name   string `json:"name"`
@@ -499,11 +558,12 @@ func cmdMenu() {
 	type fd struct {
 		Name   string `json:"name"`
 		Pooled bool   `json:"pooled"`
+		Named  bool   `json:"named"`
 		Kinds  []kd   `json:"kinds"`
 	}
 	var out []fd
 	for _, f := range families {
-		d := fd{Name: f.Name, Pooled: f.Pooled}
+		d := fd{Name: f.Name, Pooled: f.Pooled, Named: f.Named}
 		for _, k := range f.Kinds {
 			d.Kinds = append(d.Kinds, kd{k.Name, k.Exempt, k.API})
 		}
@@ -515,7 +575,7 @@ func cmdMenu() {
 
 func main() {
 	if len(os.Args) < 2 {
-		fmt.Fprintln(os.Stderr, "usage: reuse menu|exec|shrink")
+		fmt.Fprintln(os.Stderr, "usage: reuse menu|exec|proc|shrink")
 		os.Exit(2)
 	}
 	switch os.Args[1] {
@@ -523,6 +583,8 @@ func main() {
 		cmdMenu()
 	case "exec":
 		cmdExec(os.Args[2:])
+	case "proc":
+		cmdProc(os.Args[2:])
 	case "shrink":
 		cmdShrink()
 	default:
